@@ -17,6 +17,9 @@
 //	              FIB method (the lock and its deferred unlock: the critical section is never left early)
 //	reentrant     number of calls, from the method or its same-type callees, to an exported (= locking)
 //	              method of the same table type (must be 0: sync.RWMutex is not re-entrant)
+//	fibCalls      call sites `FibStrategyTable.<method>(…)` in the method and its same-type callees, and how
+//	fibCallsInLoop many of them sit inside a loop (a RIB mutation installs its FIB changes through exactly
+//	              ONE call outside any loop = one inner critical section; a RIB listing makes none)
 //	callsRib      the method (transitively) mentions the identifier Rib (lock order: RIB -> FIB only)
 //
 // The Lean side (NdnVerif/C16/Props.lean) proves by evaluation that every method is disciplined.
@@ -121,6 +124,7 @@ func isFreshExpr(e ast.Expr) bool {
 
 type facts struct {
 	writes, live, lockOps, reentrant int
+	fibCalls, fibCallsInLoop         int
 	callsRib                         bool
 }
 
@@ -141,6 +145,26 @@ func analyse(d *ast.FuncDecl, byName map[string][]*ast.FuncDecl, seen map[*ast.F
 		}
 	}
 	rangeVars := map[string]bool{}
+	// source ranges of loop bodies, to tell whether a call site sits inside a loop
+	type span struct{ lo, hi token.Pos }
+	var loops []span
+	ast.Inspect(d.Body, func(n ast.Node) bool {
+		switch x := n.(type) {
+		case *ast.ForStmt:
+			loops = append(loops, span{x.Body.Pos(), x.Body.End()})
+		case *ast.RangeStmt:
+			loops = append(loops, span{x.Body.Pos(), x.Body.End()})
+		}
+		return true
+	})
+	inLoop := func(p token.Pos) bool {
+		for _, l := range loops {
+			if l.lo <= p && p < l.hi {
+				return true
+			}
+		}
+		return false
+	}
 	ast.Inspect(d.Body, func(n ast.Node) bool {
 		switch x := n.(type) {
 		case *ast.AssignStmt:
@@ -183,6 +207,15 @@ func analyse(d *ast.FuncDecl, byName map[string][]*ast.FuncDecl, seen map[*ast.F
 				}
 			}
 		case *ast.CallExpr:
+			if sel, ok := x.Fun.(*ast.SelectorExpr); ok {
+				// a call into the FIB through the process-global table: one inner critical section
+				if id, ok := sel.X.(*ast.Ident); ok && id.Name == "FibStrategyTable" && countLocks {
+					f.fibCalls++
+					if inLoop(x.Pos()) {
+						f.fibCallsInLoop++
+					}
+				}
+			}
 			if sel, ok := x.Fun.(*ast.SelectorExpr); ok && len(x.Args) == 0 {
 				switch sel.Sel.Name {
 				case "Lock", "Unlock", "RLock", "RUnlock":
@@ -282,7 +315,7 @@ func main() {
 	}
 	var sb strings.Builder
 	sb.WriteString("/- GENERATED by harness/cmd/lockfacts from the working tree on every run of ./check C16. Do not edit. -/\n")
-	sb.WriteString("namespace Ndn.Gen.C16\n\nstructure MethodFact where\n  typ : String\n  name : String\n  lock : String\n  deferUnlock : Bool\n  sharedWrites : Nat\n  returnsLive : Nat\n  lockOps : Nat\n  reentrant : Nat\n  callsRib : Bool\nderiving Repr, DecidableEq\n\ndef methods : List MethodFact := [\n")
+	sb.WriteString("namespace Ndn.Gen.C16\n\nstructure MethodFact where\n  typ : String\n  name : String\n  lock : String\n  deferUnlock : Bool\n  sharedWrites : Nat\n  returnsLive : Nat\n  lockOps : Nat\n  reentrant : Nat\n  fibCalls : Nat\n  fibCallsInLoop : Nat\n  callsRib : Bool\nderiving Repr, DecidableEq\n\ndef methods : List MethodFact := [\n")
 	for i, m := range methods {
 		d := m.decl
 		rn := recvName(d)
@@ -307,7 +340,7 @@ func main() {
 		if i == len(methods)-1 {
 			sep = ""
 		}
-		fmt.Fprintf(&sb, "  ⟨%q, %q, %q, %v, %d, %d, %d, %d, %v⟩%s\n", m.recv, d.Name.Name, lock, deferOK, f.writes, f.live, f.lockOps, f.reentrant, f.callsRib, sep)
+		fmt.Fprintf(&sb, "  ⟨%q, %q, %q, %v, %d, %d, %d, %d, %d, %d, %v⟩%s\n", m.recv, d.Name.Name, lock, deferOK, f.writes, f.live, f.lockOps, f.reentrant, f.fibCalls, f.fibCallsInLoop, f.callsRib, sep)
 	}
 	sb.WriteString("]\n\nend Ndn.Gen.C16\n")
 	old, _ := os.ReadFile(out)
